@@ -59,11 +59,10 @@ class C30(core.Check):
         'integer coordinates that reach the regenerated _draw_line/_draw_box/_draw_box_filled are recorded from '
         'the run; CIRCLE, PAINT and DRAW enter the model as their recorded request lists',
     ]
-    PARTIAL = ('request generators proved safe from the regenerated code: PSET, LINE, LINE B, LINE BF, VIEW fill/'
-               'border, DRAW segments (= _draw_line), PUT (bounds tests hand-modelled); CIRCLE/ellipse: every store '
-               'site is single-pixel (regenerated site table), safe for all integers, octant loops not modelled; '
-               'PAINT: interval requests proved safe given interval inside the bounds, which is an invariant of '
-               '_flood_fill that is not proved here (C32)')
+    PARTIAL = ('unconditional for PSET, LINE[,B|BF], VIEW (regenerated corner checks), PUT, CIRCLE/ellipse and DRAW (as '
+               'arbitrary integer pixel requests; octant loops / DRAW interpreter and all float arithmetic not '
+               'modelled as code) and solid PAINT (through C32 model/Flood.v); tiled PAINT: interval requests proved '
+               'safe given interval inside the bounds, which is not derived from _flood_fill (replayed, tested)')
     RULE = ('a real Session per video adapter (quick: cga, ega; thorough: + vga, tandy, pcjr, hercules, olivetti, '
             'ega_mono), every graphics SCREEN of it, random active/visual page, optional VIEW [SCREEN] and WINDOW '
             '[SCREEN], uniform background; one random statement (PSET PRESET LINE[,B|BF][,style] VIEW CIRCLE PAINT '
@@ -177,14 +176,20 @@ class C30(core.Check):
                     'x1': rng.choice([rng.randrange(w), cx()]), 'y1': rng.choice([rng.randrange(h), cy()]),
                     'screen': rng.random() < 0.5, 'fill': col(), 'border': col()}
         if k == 'circle':
-            d = {'k': 'circle', 'x': cx(), 'y': cy(), 'r': rng.choice([0, 1, 2, 5, 10, 25, 40, 60, 100, 150]), 'c': col()}
-            if rng.random() < 0.3:
-                d['start'] = round(rng.uniform(-6.28, 6.28), 2)
-                d['stop'] = round(rng.uniform(-6.28, 6.28), 2)
-            if rng.random() < 0.3:
-                d['aspect'] = rng.choice([0.25, 0.5, 1, 2, 3.5])
-            if rng.random() < 0.1:
-                d['r'] = rng.choice([300, 1000])
+            d = {'k': 'circle', 'x': cx(), 'y': cy(), 'r': rng.choice([0, 0.4, 1, 2, 5, 10, 25, 40, 60, 100, 150]),
+                 'c': col()}
+            if rng.random() < 0.35:
+                d['start'] = rng.choice([round(rng.uniform(-6.28, 6.28), 2), 0, -0.01, 6.28, -6.28, 3.14, 1.57])
+                d['stop'] = rng.choice([round(rng.uniform(-6.28, 6.28), 2), 0, 6.28, -6.28, -3.14, 4.71])
+            if rng.random() < 0.4:
+                # extreme aspects: needle-thin and very flat ellipses (the tip-finishing loop of _draw_ellipse)
+                d['aspect'] = rng.choice([0.001, 0.01, 0.1, 0.25, 0.5, 1, 2, 3.5, 10, 100, 1000])
+            if rng.random() < (0.12 if self.tier == 'thorough' else 0.05):
+                # extreme radii: far larger than the screen (thousands of requests, nearly all outside); the
+                # recorded request list is replayed by the model, so keep it affordable in the quick tier
+                d['r'] = rng.choice([300, 700, 1000, 2000] if self.tier == 'thorough' else [300, 500])
+                if d.get('aspect') in (0.001, 0.01, 100, 1000):
+                    d['aspect'] = rng.choice([0.1, 10])
             return d
         if k == 'paint':
             d = {'k': 'paint', 'x': cx(), 'y': cy(), 'c': col()}
@@ -193,6 +198,13 @@ class C30(core.Check):
             small = (x1 - x0) * (y1 - y0) <= 3000
             if small and rng.random() < 0.5:
                 d['tile'] = [rng.randrange(256) for _ in range(rng.choice([1, 2, 3, 4, 8]))]
+            if rng.random() < 0.5 and hix >= 4 and hiy >= 4:
+                # an outline in the border colour inside the viewport (partly outside it), drawn before the PAINT:
+                # the fill must stop at it and at the viewport edge
+                d['prebox'] = [rng.randint(-3, hix), rng.randint(-3, hiy), rng.randint(0, hix + 3),
+                               rng.randint(0, hiy + 3)]
+                if d.get('border') is None and d.get('c') is None:
+                    d['border'] = rng.randrange(1, max(2, nattr))
             return d
         if k == 'draw':
             parts = []
@@ -216,8 +228,12 @@ class C30(core.Check):
             return {'k': 'draw', 's': ' '.join(parts)}
         # put
         sw, sh = rng.choice([1, 2, 3, 7, 8, 9, 16, 17, 33]), rng.choice([1, 2, 3, 5, 8, 13])
-        return {'k': 'put', 'x': coord_pool(rng, lox, hix - sw + 1, w), 'y': coord_pool(rng, loy, hiy - sh + 1, h),
-                'w': sw, 'h': sh, 'op': rng.randrange(5), 'seed': rng.randrange(1 << 30)}
+        px, py = coord_pool(rng, lox, hix - sw + 1, w), coord_pool(rng, loy, hiy - sh + 1, h)
+        if rng.random() < 0.4:
+            # exactly at / one pixel beyond each edge of the viewport (the two `contains` tests of put_)
+            px = rng.choice([lox, lox - 1, hix - sw + 1, hix - sw + 2, px])
+            py = rng.choice([loy, loy - 1, hiy - sh + 1, hiy - sh + 2, py])
+        return {'k': 'put', 'x': px, 'y': py, 'w': sw, 'h': sh, 'op': rng.randrange(5), 'seed': rng.randrange(1 << 30)}
 
     def gen_cases(self, n):
         rng = self.rng
@@ -282,8 +298,12 @@ class C30(core.Check):
                 case['hist'] = hh
                 case['bg'] = 0
             case['stmt'] = self.gen_stmt(rng, w, h, vrect, nattr, text)
-            if case['stmt']['k'] == 'paint' and case['window'] and 'tile' in case['stmt']:
-                pass
+            if case['stmt']['k'] == 'circle' and case['window']:
+                # the radius is in WINDOW units: keep the physical radius what the generator chose (a unit-wide
+                # WINDOW would otherwise turn r=100 into 64000 pixels, i.e. 360000 replayed requests)
+                wd = case['window']
+                sc = min(abs(wd[2] - wd[0]) / float(w), abs(wd[3] - wd[1]) / float(h))
+                case['stmt']['r'] = round(case['stmt']['r'] * sc, 4)
             key = '%s/%s' % (case['stmt']['k'], 'text' if text else 'gfx')
             hist[key] = hist.get(key, 0) + 1
             hist['video ' + video] = hist.get('video ' + video, 0) + 1
@@ -463,6 +483,12 @@ class C30(core.Check):
                     pix = disp.pages[p]._pixels
                     if bytes(pix.to_bytes()) != bytes([case['bg']]) * (pix.width * pix.height):
                         pix[:, :] = case['bg']
+            if st['k'] == 'paint' and st.get('prebox') and not case.get('window'):
+                bcol = st.get('border') if st.get('border') is not None else st.get('c')
+                if bcol is not None and bcol != case['bg']:
+                    pb = st['prebox']
+                    ex('LINE (%d,%d)-(%d,%d),%d,B' % (pb[0], pb[1], pb[2], pb[3], bcol))
+                    s._impl.interpreter.error_num = 0
             info.update({'w': w, 'h': h, 'npages': npages, 'ap': ap, 'sel': sel, 'bpp': g._mode.bitsperpixel,
                          'view': G.view_of(g), 'nattr': g._num_attr})
             # oracle's own idea of the clip rectangle, from the BASIC statements issued (not from graph_view)
@@ -537,7 +563,16 @@ class C30(core.Check):
         text = info['text']
         calls = info['calls']
         flat = G.enc_reqs_flat(info['reqs'])
-        generic = lambda gd: '(SReqs %d (decode_reqs (Z.to_nat %d) %s) %d)' % (gd, len(info['reqs']) + 1, G.zl_chunked(flat), err)
+        def generic(gd):
+            # CIRCLE / DRAW (and anything else that only issued single-pixel requests): the unconditional kind
+            if all((not isinstance(i[0], slice)) and (not isinstance(i[1], slice)) and isinstance(d, int)
+                   for (i, d) in info['reqs']):
+                pts = []
+                for (i, d) in info['reqs']:
+                    pts += [int(i[0]), int(i[1]), d]
+                return '(SPixels %d (decode_pts (Z.to_nat %d) %s) %d)' % (gd, len(info['reqs']) + 1,
+                                                                          G.zl_chunked(pts), err)
+            return '(SReqs %d (decode_reqs (Z.to_nat %d) %s) %d)' % (gd, len(info['reqs']) + 1, G.zl_chunked(flat), err)
         if k == 'pset':
             if ok and not text and len(info['reqs']) == 1:
                 (yi, xi), a = info['reqs'][0]
@@ -561,7 +596,8 @@ class C30(core.Check):
         if k in ('view', 'view0'):
             if text:
                 return '(SView 0 0 1 1 false None None)'
-            if ok and k == 'view':
+            ints = k == 'view' and all(isinstance(st[c], int) and abs(st[c]) < 32768 for c in ('x0', 'y0', 'x1', 'y1'))
+            if (ok or (err == 5 and ints and not calls)) and k == 'view':
                 fill = border = 'None'
                 for name, a, kw in calls:
                     if name == '_draw_box_filled':
